@@ -261,52 +261,54 @@ def u8pCmd (mem uh vh : String) (toks : List String) : String :=
 /-! ### utf8: the case transformations and the transformation that stays installed (`u8t`), against the REAL plugin
 
     u8t <table> <U: hex | .> <op> <op> …
-        table: `-` or entries `code:upper:lower` (hex) joined by `,` — the entries of the REAL character table
+        table: `-` or entries `code:upper:lower:category:translate` (hex; `translate` = the bytes of the string packed big-endian) joined by `,` — the entries of the REAL character table
                (utf8helper_charmap.cpp, read by vlib/props/c18f.py) for the sequences the case can touch; a sequence that is
                not listed has no page
-        ops: tu (toupper) | tl (tolower) | al:<hex|.|null> (append(string)) | ap:<int|null> (append(integer)) | cl (clear)
-        -> model=<count>,<rawsize>,<string hex>;…  [kf=C18.utf8_transform_sticky]
-    `kf=`: an `append(string)` ran on an object with a transformation still installed and stored something else than a fresh
-    object would have. -/
-
-def KF_STICKY := "C18.utf8_transform_sticky"
+        ops: tu (toupper) | tl (tolower) | tc (capitalize) | tn (normalize) | tt (translit) | al:<hex|.|null> (append(string)) |
+             ap:<int|null> (append(integer)) | cl (clear)
+        -> model=<count>,<rawsize>,<string hex>;…
+    (no `kf=`: the transformation that stayed installed after toupper() / tolower() — former finding
+    C18.utf8_transform_sticky — is repaired; an append(string) after a transformation is an ordinary case) -/
 
 def hexToNat (s : String) : Nat := s.toList.foldl (fun a c => a * 16 + hexVal c) 0
 
-def parseCharMap (s : String) : Utf8.CharMap :=
-  let entries : List (Nat × Nat × Nat) :=
-    if s = "-" then [] else (s.splitOn ",").filterMap fun e =>
-      match e.splitOn ":" with
-      | [a, b, c] => some (hexToNat a, hexToNat b, hexToNat c)
-      | _ => none
-  let hm : Std.HashMap Nat (Nat × Nat) := entries.foldl (fun m e => m.insert e.1 (e.2.1, e.2.2)) {}
-  fun u => hm[u]?
+def parseEntries (s : String) : List (Nat × Nat × Nat × Nat × Nat) :=
+  if s = "-" then [] else (s.splitOn ",").filterMap fun e =>
+    match e.splitOn ":" with
+    | [a, b, c, d, t] => some (hexToNat a, hexToNat b, hexToNat c, hexToNat d, hexToNat t)
+    | [a, b, c, d] => some (hexToNat a, hexToNat b, hexToNat c, hexToNat d, hexToNat a)
+    | _ => none
 
-def parseTOp (tok : String) : Option Utf8.TOp :=
+def parseCharMap (s : String) : Utf8.CharMapC × Utf8.CharMapT :=
+  let entries := parseEntries s
+  let hm : Std.HashMap Nat (Nat × Nat × Nat) := entries.foldl (fun m e => m.insert e.1 (e.2.1, e.2.2.1, e.2.2.2.1)) {}
+  let ht : Std.HashMap Nat Nat := entries.foldl (fun m e => m.insert e.1 e.2.2.2.2) {}
+  (fun u => hm[u]?, fun u => ht[u]?)
+
+def parseTOp (tok : String) : Option Utf8.TOpC :=
   match tok.splitOn ":" with
-  | ["tu"] => some .toupper
-  | ["tl"] => some .tolower
-  | ["al", h] => some (.appendL (if h = "null" then none else some (parseBytes h)))
-  | ["ap", n] => (parseInt n).map .append
-  | ["cl"] => some .clear
+  | ["tu"] => some (.base .toupper)
+  | ["tl"] => some (.base .tolower)
+  | ["tc"] => some .capitalize
+  | ["tn"] => some .normalize
+  | ["tt"] => some .translit
+  | ["al", h] => some (.base (.appendL (if h = "null" then none else some (parseBytes h))))
+  | ["ap", n] => (parseInt n).map fun x => .base (.append x)
+  | ["cl"] => some (.base .clear)
   | _ => none
 
-def runT (cm : Utf8.CharMap) : Utf8.TStr → List Utf8.TOp → List String → Option String → List String × Option String
-  | _, [], acc, kf => (acc, kf)
-  | t, op :: ops, acc, kf =>
-    let t' := Utf8.tstep cm t op
-    let kf' := match op with
-      | .appendL (some s) =>
-        if t.func != .nop && (Utf8.appendBytesT cm { t with func := .nop } s).u != t'.u then some KF_STICKY else kf
-      | _ => kf
-    runT cm t' ops (pStateStr t'.u :: acc) kf'
+def runT (cm : Utf8.CharMapC × Utf8.CharMapT) : Utf8.TStr → List Utf8.TOpC → List String → List String
+  | _, [], acc => acc
+  | t, op :: ops, acc =>
+    let t' := Utf8.tstepC cm.1 cm.2 t op
+    runT cm t' ops (pStateStr t'.u :: acc)
 
 def u8tCmd (tbl uh : String) (toks : List String) : String :=
   match toks.mapM parseTOp with
   | none => "bad-op"
   | some ops =>
-    let (acc, kf) := runT (parseCharMap tbl) { u := Utf8.ofBytes (parseBytes uh) } ops [] none
-    "model=" ++ ";".intercalate acc.reverse ++ (match kf with | some k => " kf=" ++ k | none => "")
+    let acc := runT (parseCharMap tbl) { u := Utf8.ofBytes (parseBytes uh) } ops []
+    "model=" ++ ";".intercalate acc.reverse
 
 /-! ### csv: the plugin glue (`csvp`), run against the REAL plugin by vlib/props/c18f.py
 
